@@ -632,6 +632,57 @@ def family_states():
     return out
 
 
+def bell_diag_grid(rng, quick):
+    """Bell-diagonal weights: the full grid k/8 (165 compositions, incl. the boundary p_max = 1/2 exactly), points next to the
+    boundary, and random ones"""
+    out = []
+    for c in itertools.product(range(9), repeat=4):
+        if sum(c) == 8:
+            out.append(np.array(c) / 8)
+    for d in (1e-12, 1e-9, 1e-6, 1e-4):
+        for sgn in (1, -1):
+            t = 0.5 + sgn * d
+            out.append(np.array([t, (1 - t) / 2, (1 - t) / 2, 0.0]))
+            out.append(np.array([0.0, (1 - t), 0.0, t]))
+    for _ in range(40 if quick else 400):
+        out.append(rng.dirichlet(np.ones(4) * rng.choice([0.3, 1.0, 3.0])))
+    return out
+
+
+def bell_diag_rho(p):
+    import numqi
+    return sum(pi * np.outer(numqi.state.Bell(i), numqi.state.Bell(i).conj()) for i, pi in enumerate(p)).astype(np.complex128)
+
+
+def check_bell_diag(ctx, p):
+    """on the Bell-diagonal family separable <=> p_max <= 1/2 (theorems bellDiag_ppt_iff, woottersReadout_bellDiag): every criterion
+    must accept for p_max <= 1/2 (incl. the boundary) and the PPT-equivalent ones must reject beyond a band around it"""
+    import numqi
+    E = numqi.entangle
+    rho = bell_diag_rho(p)
+    pm = float(max(p))
+    rp = dict(rho_desc(rho, (2, 2), 'bell-diagonal'), weights=[float(x) for x in p])
+    ok = True
+    res = dict(is_ppt=guarded(lambda: bool(E.is_ppt(rho, (2, 2)))), is_generalized_ppt=guarded(lambda: bool(E.is_generalized_ppt(rho, (2, 2)))),
+               check_reduction_witness=guarded(lambda: bool(E.check_reduction_witness(rho, (2, 2)))), check_swap_witness=guarded(lambda: bool(E.check_swap_witness(rho))))
+    if pm <= 0.5:
+        for name, r in res.items():
+            if r is not True:
+                ctx.fail(f'{name}:separable-rejected', f'{name} returned {r} for the separable Bell-diagonal state p={list(p)} (p_max={pm})', rp); ok = False
+    elif pm > 0.5 + 1e-6:
+        # PPT, generalized PPT (the partial transpose is one of its realignments) and the reduction criterion are complete for two qubits
+        for name in ('is_ppt', 'is_generalized_ppt', 'check_reduction_witness'):
+            if res[name] is not False:
+                ctx.fail(f'{name}:bell-diagonal-entangled-accepted', f'{name} returned {res[name]} for the Bell-diagonal state p={list(p)} with p_max={pm} > 1/2 '
+                         f'(partial transpose has the eigenvalue {0.5 - pm})', rp); ok = False
+    n = guarded(lambda: float(E.get_negativity(rho, (2, 2))))
+    if isinstance(n, str) or not np.isfinite(n) or abs(n - max(0.0, pm - 0.5)) > 1e-9:
+        ctx.fail('get_negativity:bell-diagonal', f'negativity {n} != max(0, p_max - 1/2) = {max(0.0, pm - 0.5)} for p={list(p)}', rp); ok = False
+    if ok:
+        ctx.probe_ok(('bell-diagonal', tuple(float(x) for x in p)))
+    return ok
+
+
 def oracle_pt(rho, dim, i):
     """partial transpose on party i from the definition (explicit loop over multi-indices; independent of the reshape in is_ppt)"""
     N = int(np.prod(dim))
@@ -824,6 +875,9 @@ def probe(ctx):
     for rho, dim, name in family_states():
         ctx.count('probe-family')
         check_state(ctx, np.asarray(rho, dtype=np.complex128), dim, name, rho_desc(rho, dim, name), meas)
+    for pw in bell_diag_grid(rng, ctx.quick()):
+        ctx.count('probe-bell-diagonal')
+        check_bell_diag(ctx, pw)
     # the documented closed boundary of is_generalized_ppt (`norm<=1+threshold` passes): computational-basis product states have
     # nuclear norm exactly 1 in every realignment (a single entry 1), so they must pass even with threshold=0
     for dim in PROBE_DIMS:
@@ -929,6 +983,8 @@ def replay(ctx, payload):
             r = guarded(lambda: bool(numqi.entangle.is_ABk_symmetric_ext(rho, dim, rp['kext'], use_ppt=rp['use_ppt'], use_boson=rp['use_boson'])))
             if r is not True:
                 ctx.fail(payload.get('key'), f'is_ABk_symmetric_ext returned {r}', rp)
+        elif 'weights' in rp:
+            check_bell_diag(ctx, np.array(rp['weights']))
         elif 'threshold' in rp:
             import numqi
             r = guarded(lambda: numqi.entangle.is_generalized_ppt(rho, dim, threshold=rp['threshold']))
